@@ -343,6 +343,78 @@ Proof.
   rewrite (pupil_function_mono Pmono lam n m g x y Okm Eg Hx Hy). now rewrite Ea, Eo.
 Qed.
 
+(* ------------------------------------------------------------------ any chain of array planes *)
+(* the product of the transmissions of a chain of n x m planes at plane coordinate (r, c) *)
+Definition chain_transmission (ps : list (plane S)) (lam : Qc) (n m r c : Z) : S :=
+  fold_right (fun P acc => (transmission P lam n m r c * acc)%K) k1 ps.
+
+Lemma chain_embed (ps : list (plane S)) n m : (forall P, In P ps -> plane_ok P n m) -> ps <> [] ->
+  forall w w', (forall f, In f (pw_data w) -> fvalid S f) -> chain_multiply ps w = Ok w' ->
+  pw_lam w' = pw_lam w /\ pw_shape w' = Some (n, m) /\ (forall f, In f (pw_data w') -> fsized f) /\
+  forall r c, embed_sum (pw_data w') r c = (ec_sum (pw_data w) r c * chain_transmission ps (pw_lam w) n m r c)%K.
+Proof.
+  induction ps as [|P ps IH]; intros Hok Hne w w' Hf R; [congruence|]. cbn [chain_multiply] in R.
+  destruct (plane_multiply P w) as [a|e] eqn:M; cbn [rbind] in R; [|discriminate].
+  destruct (plane_multiply_ok_pix S _ _ _ M) as (px & Hp).
+  destruct (plane_multiply_spec S Sring P w n m px (Hok P (or_introl eq_refl)) Hf Hp) as (a' & Ea & La & _ & Sa & _ & Za & Ga).
+  rewrite M in Ea. injection Ea as <-.
+  destruct ps as [|Q ps'].
+  - cbn in R. injection R as <-. repeat (split; [assumption|]). intros r c. rewrite Ga.
+    unfold chain_transmission. cbn [fold_right]. ring.
+  - destruct (IH (fun X HX => Hok X (or_intror HX)) ltac:(discriminate) a w'
+                 (fun f Hf' => fsized_valid S f (Za f Hf')) R) as (L & Sh & Z & G).
+    split; [congruence|]. split; [exact Sh|]. split; [exact Z|]. intros r c.
+    rewrite G, (sized_ec S Sring) by exact Za. rewrite Ga, La. unfold chain_transmission. cbn [fold_right]. ring.
+Qed.
+
+(* "after any chain of planes and a propagation": a fresh plane wave through k >= 1 array planes of one shape
+   (monolithic or segmented), then propagate_dft: the image is the transform of the PRODUCT of the planes' pupil functions *)
+Theorem image_of_chain (ps : list (plane S)) (w1 : pwf S) lam pix foc z dur duc shape pshape os dxr dxc n m Sr Sc Pr Pc :
+  ps <> [] -> (forall P, In P ps -> plane_ok P n m) -> 0 < n -> 0 < m ->
+  chain_multiply ps (pwf_init lam pix foc []) = Ok w1 ->
+  pw_pix w1 = Some (dxr, dxc) -> pw_focal w1 = FVal z ->
+  match shape with None => (n, m) | Some s => s end = (Sr, Sc) ->
+  match pshape with None => (Sr, Sc) | Some p => p end = (Pr, Pc) ->
+  0 < Sr -> 0 < Sc -> 0 < Pr -> 0 < Pc -> 1 <= os -> Sr * os < maxsize -> Sc * os < maxsize ->
+  let ar := ((dxr * dur) / (lam * z * zq os))%Qc in
+  let ac := ((dxc * duc) / (lam * z * zq os))%Qc in
+  exists v o oi, chain_propagate sq ps (pwf_init lam pix foc []) dur duc shape pshape os = Ok v /\
+    wfield v = Ok o /\ wintensity v = Ok oi /\
+    nr o = Sr * os /\ nc o = Sc * os /\ nr oi = Sr * os /\ nc oi = Sc * os /\
+    forall i j, 0 <= i < Sr * os -> 0 <= j < Sc * os ->
+      let u := i - (Sr * os) / 2 in let v := j - (Sc * os) / 2 in
+      get o i j =
+        (if inE (array_extent (Pr * os) (Pc * os) 0 0) u v
+         then (sumZ n (fun x => sumZ m (fun y =>
+                 (fold_right (fun P acc =>
+                    (amp_at (pl_amp P) x y * ke (- (opd_at (pl_opd P) x y / lam))%Qc * cover (masks_of (pl_mask P)) x y
+                     * acc)%K) k1 ps
+                  * ke (ar * zq (x - n / 2) * zq u + ac * zq (y - m / 2) * zq v)%Qc)%K))
+               * sq (qabs (ar * ac)%Qc))%K
+         else k0)
+      /\ get oi i j = norm2 (get o i j).
+Proof.
+  intros Hne Hok Hn Hm Hch Hpx Hfo Hshape Hpshape HSr HSc HPr HPc Hos HbR HbC ar ac.
+  set (w0 := pwf_init (S := S) lam pix foc []) in *.
+  destruct (chain_embed ps n m Hok Hne w0 w1 (fresh_valid lam pix foc []) Hch) as (L1 & S1 & Z1 & G1).
+  change (pw_lam w0) with lam in L1, G1.
+  assert (Hsup : forall r c, inr n (r + n / 2) && inr m (c + m / 2) = false -> embed_sum (pw_data w1) r c = k0).
+  { intros r c E. rewrite G1. destruct ps as [|P ps']; [congruence|]. unfold chain_transmission. cbn [fold_right].
+    rewrite (transmission_outside P lam n m r c (ok_layers S P n m (Hok P (or_introl eq_refl))) E). ring. }
+  assert (Hfn1 : pw_focal w1 <> FNone) by (rewrite Hfo; discriminate).
+  destruct (chain_propagate_samples ps w0 w1 dur duc shape pshape os dxr dxc n m Sr Sc Pr Pc
+              Hch S1 Hpx Hfn1 Z1 Hn Hm Hsup Hshape Hpshape HSr HSc HPr HPc Hos HbR HbC)
+    as (v & o & oi & Ev & Fo & Foi & No & Mo & Ni & Mi & G).
+  exists v, o, oi. repeat (split; [assumption|]).
+  intros i j Hi Hj. destruct (G i j Hi Hj) as [Ga Gb]. split; [|exact Gb].
+  rewrite Ga. rewrite L1, Hfo. cbn [focal_opt dft_alpha1]. fold ar ac. destr_if; [|reflexivity]. f_equal.
+  rewrite fourier_sum_image_sum. unfold image_sum. apply sumZ_ext; intros x Hx. apply sumZ_ext; intros y Hy. f_equal.
+  rewrite G1. unfold w0. rewrite ec_sum_fresh. unfold chain_transmission.
+  transitivity (fold_right (fun P acc => (transmission P lam n m (x - n / 2) (y - m / 2) * acc)%K) k1 ps); [ring|].
+  clear. induction ps as [|P ps IH]; cbn [fold_right]; [reflexivity|].
+  rewrite IH, transmission_pupil_function. reflexivity.
+Qed.
+
 End ChainGen.
 
 (* ================================================================== C09 o C02: FFT path = DFT path *)
@@ -437,6 +509,44 @@ Proof.
     cbn [andb]. f_equal.
     pose proof (ortho_is_unitary_scale S sq N N HN HN) as E. unfold ortho_scale, unitary_scale in E. exact E.
   - rewrite Hcommon by assumption. now rewrite (lsum_map_fold S).
+Qed.
+
+(* the same statement with the vocabulary of Proofs/FftP.v ([fgood], [fits]) unfolded (the form quoted in Properties/Chain.v) *)
+Theorem fft_equals_dft_explicit (wF : Fft.wavefront S) (N : Z) (d u z : Qc) (os s0 s1 : Z) (scratch : option (arr S)) :
+  0 < N -> 0 < os -> d <> 0%Qc -> u <> 0%Qc -> z <> 0%Qc ->
+  Fft.wpix wF = (d, d) -> Fft.wz wF = z ->
+  fft_grid (d, d) (u, u) z (Fft.wlam wF) os = (N, N) ->
+  Fft.has_tilt wF = false -> Fft.wpt wF <> PNone ->
+  (forall f, In f (Fft.wdata wF) ->
+     match fd f with
+     | D2 a => (0 < nr a /\ 0 < nc a) /\
+               0 <= N / 2 - nr a / 2 + offr f /\ N / 2 - nr a / 2 + offr f + nr a <= N /\
+               0 <= N / 2 - nc a / 2 + offc f /\ N / 2 - nc a / 2 + offc f + nc a <= N
+     | D0 _ => False
+     end) ->
+  0 < s0 -> 0 < s1 -> s0 * os <= N -> s1 * os <= N ->
+  scratch_ok S N N wF scratch ->
+  let lamF := prop_wavelength N N (d, d) (u, u) z os in
+  let wD := mkWf lamF (Some (d, d)) (Some z) (Fft.wshape wF) (pt_conv (Fft.wpt wF)) (Fft.wdata wF) in
+  exists outF sc oF outD oD,
+    propagate_fft sq wF (u, u) (Some (s0, s1)) os scratch = Ok (outF, sc) /\
+    Fft.wfield outF = Ok oF /\ Fft.wlam outF = lamF /\ Fft.wshape outF = (s0 * os, s1 * os) /\
+    propagate_dft sq (@no_shift S) wD u u (Some (s0, s1)) None os None = Ok outD /\
+    wfield outD = Ok oD /\ wwl outD = lamF /\ wshape outD = (s0 * os, s1 * os) /\
+    nr oF = s0 * os /\ nc oF = s1 * os /\ nr oD = s0 * os /\ nc oD = s1 * os /\
+    forall i j, 0 <= i < s0 * os -> 0 <= j < s1 * os ->
+      get oF i j = get oD i j /\
+      get oF i j =
+        (fold_right (fun f acc =>
+           (match fd f with
+            | D2 a => fourier_sum a (/ zq N)%Qc (/ zq N)%Qc (offr f) (offc f)
+                                  (zq (i - (s0 * os) / 2)) (zq (j - (s1 * os) / 2))
+            | D0 _ => k0
+            end + acc)%K) k0 (Fft.wdata wF)
+         * sq (/ zq (N * N))%Qc)%K.
+Proof.
+  intros H1 H2 H3 H4 H5 H6 H7 H8 H9 H10 Hfit. apply (fft_equals_dft wF N d u z os s0 s1 scratch H1 H2 H3 H4 H5 H6 H7 H8 H9 H10).
+  intros f Hf. specialize (Hfit f Hf). unfold fgood, fits. destruct (fd f); [contradiction|]. tauto.
 Qed.
 End ChainFft.
 
@@ -794,5 +904,142 @@ Proof.
     apply (fourier_sum_ext S); [reflexivity|reflexivity|]. cbn [nr nc get]. intros x y Hx Hy.
     rewrite pupil_function_ramp.
     replace (x - n / 2 + 0) with (x - n / 2) by lia. replace (y - m / 2 + 0) with (y - m / 2) by lia. reflexivity.
+Qed.
+
+(* Chain_tilt_plane_equals_opd_ramp: the statement above for a monolithic pupil, everything spelled out *)
+Theorem tilt_plane_equals_opd_ramp (P Pd : plane S) (g : garr bool) a b lam pix foc z dur duc shape pshape os dxr dxc
+        n m Sr Sc Pr Pc :
+  plane_ok P n m -> pl_mask P = PM2 g -> pl_tilt P = [] -> 0 < n -> 0 < m ->
+  mul_pixelscale (pl_pix P) (pix_broadcast pix) = Ok (Some (dxr, dxc)) -> pl_focal P = Some (FVal z) ->
+  plane_scalar Pd k1 0%Qc true -> pl_tilt Pd = [] -> pl_pix Pd = None -> pl_focal Pd = None ->
+  dur <> 0%Qc -> duc <> 0%Qc -> lam <> 0%Qc -> z <> 0%Qc ->
+  match shape with None => (n, m) | Some s => s end = (Sr, Sc) ->
+  match pshape with None => (Sr, Sc) | Some p => p end = (Pr, Pc) ->
+  0 < Sr -> 0 < Sc -> 0 < Pr -> 0 < Pc -> 1 <= os -> Sr * os < maxsize -> Sc * os < maxsize ->
+  let w0 := pwf_init (S := S) lam pix foc [] in
+  let Pramp := set_opd P (OpdA (mkP n m (fun x y =>
+                 (opd_at (pl_opd P) x y + (a * (zq (x - n / 2) * dxr) - b * (zq (y - m / 2) * dxc)))%Qc))) in
+  let sr := (z * a * zq os / dur)%Qc in let sc := (- (z * b * zq os / duc))%Qc in
+  let ar := ((dxr * dur) / (lam * z * zq os))%Qc in
+  let ac := ((dxc * duc) / (lam * z * zq os))%Qc in
+  exists vA oA vB oB,
+    rbind (plane_multiply P w0) (fun w1 => rbind (elem_multiply (CTilt (TiltAng b a) Pd) w1) (fun w2 =>
+      rbind (to_wavefront w2 PtPupil) (fun w3 =>
+        propagate_dft sq (ang_shift (wfocal w3) dur duc os) w3 dur duc shape pshape os None))) = Ok vA /\
+    wfield vA = Ok oA /\
+    chain_propagate sq [Pramp] w0 dur duc shape pshape os = Ok vB /\ wfield vB = Ok oB /\
+    nr oA = Sr * os /\ nc oA = Sc * os /\ nr oB = Sr * os /\ nc oB = Sc * os /\
+    forall i j, 0 <= i < Sr * os -> 0 <= j < Sc * os ->
+      let u := i - (Sr * os) / 2 in let v := j - (Sc * os) / 2 in
+      let X := (sumZ n (fun x => sumZ m (fun y =>
+                  (amp_at (pl_amp P) x y * kofb (pget g x y) * ke (- (opd_at (pl_opd P) x y / lam))%Qc
+                   * ke (ar * zq (x - n / 2) * (zq u - sr) + ac * zq (y - m / 2) * (zq v - sc))%Qc)%K))
+                * sq (qabs (ar * ac)%Qc))%K in
+      get oA i j = (if inE (array_extent (Pr * os) (Pc * os) (qfix sr) (qfix sc)) u v then X else k0) /\
+      get oB i j = (if inE (array_extent (Pr * os) (Pc * os) 0 0) u v then X else k0) /\
+      (inE (array_extent (Pr * os) (Pc * os) (qfix sr) (qfix sc)) u v = true ->
+       inE (array_extent (Pr * os) (Pc * os) 0 0) u v = true -> get oA i j = get oB i j).
+Proof.
+  intros Hok Eg HtP Hn Hm Hpx Hfo Hs HtD HpD HfD Hdur Hduc Hlam Hz Hshape Hpshape HSr HSc HPr HPc Hos HbR HbC
+         w0 Pramp sr sc ar ac.
+  destruct (tilt_vs_ramp_gen P Pd a b lam pix foc z dur duc shape pshape os dxr dxc n m Sr Sc Pr Pc
+              Hok HtP Hn Hm Hpx Hfo Hs HtD HpD HfD Hdur Hduc Hlam Hz Hshape Hpshape HSr HSc HPr HPc Hos HbR HbC)
+    as (vA & oA & vB & oB & EA & FA & EB & FB & NA & MA & NB & MB & G).
+  exists vA, oA, vB, oB. split; [exact EA|]. split; [exact FA|]. split; [exact EB|].
+  repeat (split; [assumption|]).
+  intros i j Hi Hj. cbv zeta. destruct (G i j Hi Hj) as [GA GB]. cbv zeta in GA, GB.
+  assert (EX : image_sumQ n m (pupil_function S P lam) ar ac (zq (i - Sr * os / 2) - sr)%Qc (zq (j - Sc * os / 2) - sc)%Qc
+               = sumZ n (fun x => sumZ m (fun y =>
+                  (amp_at (pl_amp P) x y * kofb (pget g x y) * ke (- (opd_at (pl_opd P) x y / lam))%Qc
+                   * ke (ar * zq (x - n / 2) * (zq (i - Sr * os / 2) - sr) + ac * zq (y - m / 2) * (zq (j - Sc * os / 2) - sc))%Qc)%K))).
+  { unfold image_sumQ. apply sumZ_ext; intros x Hx. apply sumZ_ext; intros y Hy.
+    now rewrite (pupil_function_mono S Sring P lam n m g x y Hok Eg Hx Hy). }
+  fold ar ac sr sc in GA, GB. rewrite EX in GA, GB.
+  split; [exact GA|]. split; [exact GB|]. intros WA WB. rewrite GA, GB, WA, WB. reflexivity.
+Qed.
+
+(* the same with the tilt given to the constructor, Wavefront(..., tilt=[a, b]) (wavefront.py wraps it as Tilt(x=a, y=b)
+   on the plane-wave field; C04_representations_agree), instead of a Tilt plane *)
+Theorem wavefront_tilt_equals_opd_ramp (P : plane S) (g : garr bool) a b lam pix foc z dur duc shape pshape os dxr dxc
+        n m Sr Sc Pr Pc :
+  plane_ok P n m -> pl_mask P = PM2 g -> pl_tilt P = [] -> 0 < n -> 0 < m ->
+  mul_pixelscale (pl_pix P) (pix_broadcast pix) = Ok (Some (dxr, dxc)) -> pl_focal P = Some (FVal z) ->
+  dur <> 0%Qc -> duc <> 0%Qc -> lam <> 0%Qc -> z <> 0%Qc ->
+  match shape with None => (n, m) | Some s => s end = (Sr, Sc) ->
+  match pshape with None => (Sr, Sc) | Some p => p end = (Pr, Pc) ->
+  0 < Sr -> 0 < Sc -> 0 < Pr -> 0 < Pc -> 1 <= os -> Sr * os < maxsize -> Sc * os < maxsize ->
+  let Pramp := set_opd P (OpdA (mkP n m (fun x y =>
+                 (opd_at (pl_opd P) x y + (a * (zq (x - n / 2) * dxr) - b * (zq (y - m / 2) * dxc)))%Qc))) in
+  let sr := (z * a * zq os / dur)%Qc in let sc := (- (z * b * zq os / duc))%Qc in
+  let ar := ((dxr * dur) / (lam * z * zq os))%Qc in
+  let ac := ((dxc * duc) / (lam * z * zq os))%Qc in
+  exists vA oA vB oB,
+    wavefront_tilt (Some [a; b]) = Ok [TiltAng b a] /\
+    chain_propagate_tilted sq [P] (pwf_init lam pix foc [TiltAng b a]) dur duc shape pshape os = Ok vA /\
+    wfield vA = Ok oA /\
+    chain_propagate sq [Pramp] (pwf_init lam pix foc []) dur duc shape pshape os = Ok vB /\ wfield vB = Ok oB /\
+    nr oA = Sr * os /\ nc oA = Sc * os /\ nr oB = Sr * os /\ nc oB = Sc * os /\
+    forall i j, 0 <= i < Sr * os -> 0 <= j < Sc * os ->
+      let u := i - (Sr * os) / 2 in let v := j - (Sc * os) / 2 in
+      let X := (sumZ n (fun x => sumZ m (fun y =>
+                  (amp_at (pl_amp P) x y * kofb (pget g x y) * ke (- (opd_at (pl_opd P) x y / lam))%Qc
+                   * ke (ar * zq (x - n / 2) * (zq u - sr) + ac * zq (y - m / 2) * (zq v - sc))%Qc)%K))
+                * sq (qabs (ar * ac)%Qc))%K in
+      get oA i j = (if inE (array_extent (Pr * os) (Pc * os) (qfix sr) (qfix sc)) u v then X else k0) /\
+      get oB i j = (if inE (array_extent (Pr * os) (Pc * os) 0 0) u v then X else k0) /\
+      (inE (array_extent (Pr * os) (Pc * os) (qfix sr) (qfix sc)) u v = true ->
+       inE (array_extent (Pr * os) (Pc * os) 0 0) u v = true -> get oA i j = get oB i j).
+Proof.
+  intros Hok Eg HtP Hn Hm Hpx Hfo Hdur Hduc Hlam Hz Hshape Hpshape HSr HSc HPr HPc Hos HbR HbC Pramp sr sc ar ac.
+  set (w0 := pwf_init (S := S) lam pix foc [TiltAng b a]).
+  (* A *)
+  destruct (plane_multiply_spec S Sring P w0 n m (Some (dxr, dxc)) Hok (fresh_valid S lam pix foc _) Hpx)
+    as (w1 & E1 & L1 & P1 & S1 & F1 & Z1 & G1).
+  rewrite Hfo in F1. change (pw_lam w0) with lam in L1, G1.
+  assert (T1 : forall f, In f (pw_data w1) -> fsized f /\ ftilt f = [mk_tilt a b]).
+  { intros f Hf. split; [now apply Z1|]. destruct (plane_multiply_untilted P w0 w1 HtP E1 f Hf) as (g0 & [<-|[]] & ->).
+    reflexivity. }
+  assert (Hemb : forall x y, embed_sum (pw_data w1) (x - n / 2) (y - m / 2) = pupil_function S P lam x y).
+  { intros x y. rewrite G1. unfold w0. rewrite (ec_sum_fresh S Sring), (transmission_pupil_function S). ring. }
+  assert (Hsup : forall r c, inr n (r + n / 2) && inr m (c + m / 2) = false -> embed_sum (pw_data w1) r c = k0).
+  { intros r c E. rewrite G1, (transmission_outside S Sring P lam n m r c (ok_layers S P n m Hok) E). ring. }
+  destruct (tilted_pwf_samples w1 a b z dur duc shape pshape os dxr dxc n m Sr Sc Pr Pc
+              S1 P1 F1 T1 Hn Hm Hsup Hshape Hpshape HSr HSc HPr HPc Hos)
+    as (vA & oA & EA & FA & NA & MA & GA).
+  (* B: as in tilt_vs_ramp_gen *)
+  destruct (image_of_plane S Sring Skernel sq (ramp_plane P a b dxr dxc n m) lam pix foc (FVal z) dur duc shape pshape os
+              dxr dxc n m Sr Sc Pr Pc (ramp_plane_ok P a b dxr dxc n m Hok) Hn Hm Hpx Hfo ltac:(discriminate)
+              Hshape Hpshape HSr HSc HPr HPc Hos HbR HbC)
+    as (vB & oB & oiB & EB & FB & _ & NB & MB & _ & _ & GB).
+  exists vA, oA, vB, oB. split; [reflexivity|]. split.
+  { unfold chain_propagate_tilted. cbn [chain_multiply]. fold w0. rewrite E1. cbn [rbind]. exact EA. }
+  split; [exact FA|]. split; [exact EB|]. repeat (split; [assumption|]).
+  intros i j Hi Hj. cbv zeta.
+  assert (EX : image_sumQ n m (pupil_function S P lam) ar ac (zq (i - Sr * os / 2) - sr)%Qc (zq (j - Sc * os / 2) - sc)%Qc
+               = sumZ n (fun x => sumZ m (fun y =>
+                  (amp_at (pl_amp P) x y * kofb (pget g x y) * ke (- (opd_at (pl_opd P) x y / lam))%Qc
+                   * ke (ar * zq (x - n / 2) * (zq (i - Sr * os / 2) - sr) + ac * zq (y - m / 2) * (zq (j - Sc * os / 2) - sc))%Qc)%K))).
+  { unfold image_sumQ. apply sumZ_ext; intros x Hx. apply sumZ_ext; intros y Hy.
+    now rewrite (pupil_function_mono S Sring P lam n m g x y Hok Eg Hx Hy). }
+  assert (GA' : get oA i j = (if inE (array_extent (Pr * os) (Pc * os) (qfix sr) (qfix sc)) (i - Sr * os / 2) (j - Sc * os / 2)
+                 then (image_sumQ n m (pupil_function S P lam) ar ac (zq (i - Sr * os / 2) - sr)%Qc (zq (j - Sc * os / 2) - sc)%Qc
+                       * sq (qabs (ar * ac)%Qc))%K else k0)).
+  { rewrite (GA i j Hi Hj). cbv zeta. rewrite L1. cbn [dft_alpha1]. fold ar ac sr sc.
+    destr_if; [|reflexivity]. f_equal. apply image_sumQ_ext. intros x y _ _. apply Hemb. }
+  assert (GB' : get oB i j = (if inE (array_extent (Pr * os) (Pc * os) 0 0) (i - Sr * os / 2) (j - Sc * os / 2)
+                 then (image_sumQ n m (pupil_function S P lam) ar ac (zq (i - Sr * os / 2) - sr)%Qc (zq (j - Sc * os / 2) - sc)%Qc
+                       * sq (qabs (ar * ac)%Qc))%K else k0)).
+  { destruct (GB i j Hi Hj) as [GB1 _]. rewrite GB1. cbv zeta. cbn [focal_opt dft_alpha1]. fold ar ac.
+    destr_if; [|reflexivity]. f_equal.
+    rewrite <- (fourier_sum_image_sum S), <- fourier_sum_image_sumQ.
+    destruct (tilt_metadata_equals_ramp S Sring Skernel (mkArr n m (pupil_function S P lam)) a b dxr dxc dur duc lam z (zq os)
+                0 0 (zq (i - Sr * os / 2)) (zq (j - Sc * os / 2)) Hdur Hduc Hlam Hz ltac:(apply zq_neq0; lia))
+      as (sr' & sc' & _ & -> & -> & E).
+    cbn [nr nc get] in E. unfold Tilt.dft_alpha in E. fold ar ac sr sc in E. rewrite <- E.
+    apply (fourier_sum_ext S); [reflexivity|reflexivity|]. cbn [nr nc get]. intros x y Hx Hy.
+    rewrite pupil_function_ramp.
+    replace (x - n / 2 + 0) with (x - n / 2) by lia. replace (y - m / 2 + 0) with (y - m / 2) by lia. reflexivity. }
+  rewrite EX in GA', GB'.
+  split; [exact GA'|]. split; [exact GB'|]. intros WA WB. rewrite GA', GB', WA, WB. reflexivity.
 Qed.
 End ChainTilt.
